@@ -84,7 +84,7 @@ fn init_oracle(c: &InitCase, cl: &mut u64) -> Result<(), Failure> {
             } else {
                 let problem = RealP::with_domain(dom.clone(), RealKind::Sphere);
                 let mut st = state_with::<RealP>(vec![vec![Individual::new_unevaluated(vec![42.0])]], *seed);
-                let comp = RandomSpread::new::<RealP, f64>(*size);
+                let comp = crate::fixtures::maybe_nested(RandomSpread::new::<RealP, f64>(*size), *seed);
                 match catch(|| comp.execute(&problem, &mut st)) {
                     Ok(Ok(())) => {}
                     r => fail!("C14 RandomSpread fails", "{at}: {r:?}"),
@@ -123,7 +123,7 @@ fn init_oracle(c: &InitCase, cl: &mut u64) -> Result<(), Failure> {
             } else {
                 let problem = TspP::generated(*dim, 0, 3);
                 let mut st = state_with::<TspP>(vec![], *seed);
-                let comp = RandomPermutation::new::<TspP>(*size);
+                let comp = crate::fixtures::maybe_nested(RandomPermutation::new::<TspP>(*size), *seed);
                 match catch(|| comp.execute(&problem, &mut st)) {
                     Ok(Ok(())) => {}
                     r => fail!("C14 RandomPermutation fails", "{at}: {r:?}"),
@@ -160,7 +160,7 @@ fn init_oracle(c: &InitCase, cl: &mut u64) -> Result<(), Failure> {
             } else {
                 let problem = BitsP::new(*dim);
                 let mut st = state_with::<BitsP>(vec![], *seed);
-                let comp = if p == 0.5 { RandomBitstring::new_uniform::<BitsP>(*size) } else { RandomBitstring::new::<BitsP>(*size, p) };
+                let comp = crate::fixtures::maybe_nested(if p == 0.5 { RandomBitstring::new_uniform::<BitsP>(*size) } else { RandomBitstring::new::<BitsP>(*size, p) }, *seed);
                 match catch(|| comp.execute(&problem, &mut st)) {
                     Ok(Ok(())) => {}
                     r => fail!("C14 RandomBitstring fails", "{at}: {r:?}"),
@@ -267,6 +267,7 @@ fn apply_inner(op: BOp, dom: Vec<Range<f64>>, xs: Vec<f64>, seed: u64, other: Ve
                 BOp::Mirror => Mirror::new(),
                 BOp::OneTailed => CompleteOneTailedNormalCorrection::new(),
             };
+            let comp = crate::fixtures::maybe_nested(comp, seed ^ crate::engine::hash_of(&other.iter().map(|x| x.to_bits()).collect::<Vec<_>>()));
             comp.execute(&problem, &mut st).map(|_| {
                 let ps = st.populations();
                 (ps.current()[0].solution().clone(), ps.peek(1)[0].solution().clone(), ps.len() == 2 && ps.current().len() == 1)
